@@ -238,18 +238,20 @@ PROPS = {
     ),
     'C14': dict(
         level='model_checking', design_ref='5/C14', custom='frontends', oracle=None, engine='lockstep+tokenizer',
-        technique='lock-step exploration of one machine written in four front-end syntaxes (all events x all guard-atom valuations) + exhaustive run-time enumeration of the PlantUML line grammar through the real tokenizer + compile-time batch of guard expression trees',
-        lockstep_quick=[dict(zoo='fe_functor', peers=[('fe_' + f, c) for f in ('functor', 'basic', 'basic2', 'puml')], ops=pe_all('fe_functor'), act_in_trace=True)
+        technique='lock-step exploration of one machine written in five front-end syntaxes (all events x all guard-atom valuations) + exhaustive run-time enumeration of the PlantUML line grammar through the real tokenizer + compile-time batch of guard expression trees',
+        lockstep_quick=[dict(zoo='fe_functor', peers=[('fe_' + f, c) for f in ('functor', 'basic', 'basic2', 'puml') + (('euml',) if c in ('b', 'bc', 'bq', 'b11') else ())],
+                             ops=pe_all('fe_functor'), act_in_trace=True)
                         for c in ('b', 'b11', 'm')],
-        lockstep_thorough=[dict(zoo='fe_functor', peers=[('fe_' + f, c) for f in ('functor', 'basic', 'basic2', 'puml')], ops=pe_all('fe_functor') + ['eq:1', 'xq'], act_in_trace=True)
+        lockstep_thorough=[dict(zoo='fe_functor', peers=[('fe_' + f, c) for f in ('functor', 'basic', 'basic2', 'puml') + (('euml',) if c in ('b', 'bc', 'bq', 'b11') else ())],
+                                ops=pe_all('fe_functor') + ['eq:1', 'xq'], act_in_trace=True)
                            for c in ('b', 'bc', 'bq', 'b11', 'm', 'mf', 'mc')],
         tokenizer={'quick': (2, 3), 'thorough': (3, 4)},
-        rule='(a) product of the functor / basic / row2 / PlantUML versions of one machine: every reachable state x event x valuation of the three guard atoms, atom evaluation order and action order in the trace; '
+        rule='(a) product of the functor / basic / row2 / PlantUML / eUML-table versions of one machine (eUML on back and back11 only, backmp11 does not support it): every reachable state x event x valuation of the three guard atoms, atom evaluation order and action order in the trace; '
              '(b) every transition line of the documented grammar: 2 sources x 2 targets x 1-4 dashes x {no event part, 3 events x internal or not} x 8 guard expressions x 0-3 actions x both part orders x all '
              'blank choices at 9 positions; every ordering of 3-4 distinct lines out of initial / transition / terminal / flag / entry / exit lines; (c) 338 guard expressions as types',
         level_note='Trusted: reference model not involved; the functor front-end is the pivot of the lock-step comparison and the member-function front-end evaluates the guard expressions in plain C++. '
-                   'eUML table expressions are not covered (see DESIGN section 7).',
-        level_text='The same machine is instantiated from four front-end syntaxes and explored in lock-step on three to seven back-end configurations; the PlantUML tokenizer functions are run on every string of the '
+                   'eUML is covered as a transition-table expression inside a functor front-end (BOOST_MSM_EUML_DECLARE_TRANSITION_TABLE), not as a complete eUML machine.',
+        level_text='The same machine is instantiated from five front-end syntaxes and explored in lock-step on three to seven back-end configurations; the PlantUML tokenizer functions are run on every string of the '
                    'documented grammar up to the stated bounds and on every small document ordering; guard expressions are compared as types with the C++-precedence tree.',
     ),
 }
